@@ -426,7 +426,7 @@ func wrapForDocs(s string) string {
 func yamlf(a any) string {
 	switch v := a.(type) {
 	case string:
-		pat := regexp.MustCompile("^[a-zA-z0-9]+$")
+		pat := regexp.MustCompile("^[a-zA-Z0-9]+$")
 		if pat.MatchString(v) {
 			return v
 		}
